@@ -358,6 +358,21 @@ def emit_extras(w):
         lim = int(m.group(1)) if m else None
         pol = (_re.search(r'policy = "(\w+)"', attrs) or [None, "fifo"])[1]
         rows.append((fid, "unit", name, is_async, 'scope = "thread"' in attrs, pol, lim, attr_line))
+    # Option-returning functions that do return None for a third of their arguments: None is an
+    # ordinary value, computed once and reused like any other
+    opts = [("cache", ""), ("cache", 'limit = 8, policy = "lru"'), ("cache", 'scope = "thread"'), ("cache_async", ""), ("cache_async", 'limit = 8'), ("cache", 'max_memory = "1KB"')]
+    for macro, attrs in opts:
+        fid += 1
+        is_async = macro == "cache_async"
+        attr_line = f"#[{macro}({attrs})]" if attrs else f"#[{macro}]"
+        name = f"optn_{fid}"
+        w(f"{attr_line}\npub {'async ' if is_async else ''}fn {name}(a: u32) -> Option<u64> {{\n        let x = vhooks::enter({fid}, vhooks::dg(&(&a, )));\n        if a % 3 == 0 {{ None }} else {{ Some(x.value) }}\n}}")
+        w(f"pub fn xcall_{fid}(a: u32) -> u64 {{ {'vhooks::block_on(' + name + '(a))' if is_async else name + '(a)'}.unwrap_or(0) }}")
+        w(f"pub fn xdig_{fid}(a: u32) -> u64 {{ vhooks::dg(&(&a, )) }}")
+        m = _re.search(r"limit = (\d+)", attrs)
+        lim = int(m.group(1)) if m else None
+        pol = (_re.search(r'policy = "(\w+)"', attrs) or [None, "fifo"])[1]
+        rows.append((fid, "opt", name, is_async, 'scope = "thread"' in attrs, pol, lim, attr_line))
     # two caches registered under one name, and one function name in two modules: whatever the
     # registries make of the clash, every *other* cache must be unaffected (they are called first)
     dups = [("cache", 'name = "dup_shared_name"', "dup_a"), ("cache_async", 'name = "dup_shared_name", limit = 4', "dup_b"), ("cache", "limit = 5", "dup_m1::same_name"), ("cache", "", "dup_m2::same_name")]
